@@ -27,6 +27,8 @@ def build(node, owned=None):
         return cola.lazify(A) if via == "fn" else ops.Dense(A)
     if k == "Generic":
         A = own(P.arrays(node)["A"])
+        if node.get("gen") == "flip":  # the product is a view of the operand
+            return ops.LinearOperator(A.dtype, A.shape, matmat=lambda X: X[::-1])
         return ops.LinearOperator(A.dtype, A.shape, matmat=lambda X, A=A: A @ X)
     if k == "Triangular":
         a = P.arrays(node)
